@@ -355,78 +355,94 @@ Proof.
 Qed.
 
 (** ** one resync item *)
-Lemma key_off_start w ip e :
-  CInv w → k3b_free w ip → i_alloc (w_ipam w) !! ip = Some e →
-  (w_provider w && negb (Keys.is_empty (e_node e)))%bool = false → key_off (e_key e) w.
+Definition assigned_of (w : world) (K : str) : list (N * entry) :=
+  List.filter (λ kv : N * entry, negb (Keys.is_empty (e_node kv.2))) (by_key (w_ipam w) K).
+
+(** an IP whose entry has no node stored is Off *)
+Lemma nodeless_off w y ey : CInv w → i_alloc (w_ipam w) !! y = Some ey → e_node ey = [] → w_cloud w !! y = None.
 Proof.
-  intros HC Hk3 He Hp y e' He' Hk'. destruct (w_cloud w !! y) as [n|] eqn:Ec; [|done]. exfalso.
-  destruct (decide (y = ip)) as [->|Hne]; [|by eapply (Hk3 e y e' n)].
-  apply andb_false_iff in Hp as [Hp|Hp].
-  - by rewrite (ci_noprov w HC Hp), lookup_empty in Ec.
-  - destruct (ci_alloc w HC ip n Ec) as (e0 & He0 & Hn & Hne). rewrite He in He0. simplify_eq.
-    apply negb_false_iff, is_empty_true in Hp. done.
+  intros HC Hey Hn. destruct (w_cloud w !! y) as [ny|] eqn:Ecy; [|done].
+  destruct (ci_alloc w HC y ny Ecy) as (e0 & He0 & Hn0 & Hnn). rewrite Hey in He0. simplify_eq.
 Qed.
 
-Lemma key_off_unassigned w ip e :
-  k3b_free w ip → i_alloc (w_ipam w) !! ip = Some e → key_off (e_key e) (cloud_unassign w ip (e_node e)).
+Lemma in_assigned_of w K y ey : In (y, ey) (assigned_of w K) ↔ i_alloc (w_ipam w) !! y = Some ey ∧ e_key ey = K ∧ e_node ey ≠ [].
 Proof.
-  intros Hk3 He y e' He' Hk'. cbn [cloud_unassign w_cloud w_ipam] in *.
-  destruct (decide (y = ip)) as [->|Hne]; [apply lookup_delete|]. rewrite lookup_delete_ne by done.
-  destruct (w_cloud w !! y) as [n|] eqn:Ec; [|done]. exfalso. by eapply (Hk3 e y e' n).
+  unfold assigned_of. rewrite filter_In, by_key_spec. cbn [snd]. rewrite negb_true_iff, is_empty_false'. tauto.
 Qed.
 
-(** the provider part of a resync item / an API release: UnAssignIP(ip), then node and uid of the key's IPs are cleared *)
-Lemma step1_crel w ip e ocl (f : ares → world → world → world * sres) fl :
-  CInv w → k3b_free w ip → i_alloc (w_ipam w) !! ip = Some e →
-  (∀ ra w1 w2, (f ra w1 w2).1 = w1 ∨ (f ra w1 w2).1 = w2) →
-  let s1 : world * sres :=
-    if (w_provider w && negb (Keys.is_empty (e_node e)))%bool then
-      if bool_decide (f_cloud fl = Some 0%nat) then (w, SErr)
-      else let w1 := cloud_unassign w ip (e_node e) in
-           let r := reserve_ip (w_ipam w1) (e_key e) (e_key e) free_entry_attr ocl None in
-           f (snd r) w1 (set_ipam w1 (fst r))
-    else (w, SOk) in
-  crel (e_key e) w s1.1 ∧ (s1.2 = SOk → key_off (e_key e) s1.1).
+Lemma key_off_start w K :
+  CInv w → (w_provider w && match assigned_of w K with [] => false | _ => true end)%bool = false → key_off K w.
 Proof.
-  intros HC Hk3 He Hf. cbn zeta.
-  destruct (w_provider w && negb (Keys.is_empty (e_node e)))%bool eqn:Ep.
-  2:{ split; [apply crel_refl|]. intros _. by eapply key_off_start. }
-  destruct (bool_decide _); [split; [apply crel_refl|done]|].
-  set (w1 := cloud_unassign w ip (e_node e)).
-  assert (crel (e_key e) w w1) as Hw1 by (by eapply crel_unassign).
-  assert (key_off (e_key e) w1) as Hoff1 by (by apply key_off_unassigned).
-  set (r := reserve_ip (w_ipam w1) (e_key e) (e_key e) free_entry_attr ocl None).
-  assert (crel (e_key e) w1 (set_ipam w1 r.1)) as Hw2.
-  { apply crel_set_ipam; [done|]. intros y.
-    destruct (reserve_ip_node (w_ipam w1) (e_key e) (e_key e) ocl None y) as [E|(e0 & e' & He0 & Hk & He' & Hn)]; [by left|].
-    right. exists e0. split_and!; try done. right. by exists e'. }
-  destruct (Hf r.2 w1 (set_ipam w1 r.1)) as [->| ->].
-  - split; [done|]. intros _. done.
-  - split; [by eapply crel_trans|]. intros _. by eapply key_off_crel.
+  intros HC Hp y e' He' Hk'. apply andb_false_iff in Hp as [Hp|Hp].
+  - by rewrite (ci_noprov w HC Hp), lookup_empty.
+  - destruct (assigned_of w K) as [|kv l] eqn:Ea; [|done].
+    destruct (Keys.is_empty (e_node e')) eqn:En.
+    + apply is_empty_true in En. by eapply nodeless_off.
+    + apply is_empty_false' in En. assert (In (y, e') (assigned_of w K)) as Hin by (by apply in_assigned_of).
+      rewrite Ea in Hin. done.
 Qed.
 
+(** the provider part of a (repaired) resync item: UnAssignIP of every IP of the key that has a node stored, then node and
+    uid of the key's IPs are cleared *)
 Lemma resync_section_crel w ip o ocl fl e :
-  CInv w → k3b_free w ip → i_alloc (w_ipam w) !! ip = Some e →
+  CInv w → i_alloc (w_ipam w) !! ip = Some e →
   crel (e_key e) w (resync_section w ip o ocl fl).1.
 Proof.
-  intros HC Hk3 He. unfold resync_section. rewrite He.
+  intros HC He. unfold resync_section. rewrite He.
   destruct (resync_skip _ _); [apply crel_refl|].
   destruct (pod_running _ _ _ _); [apply crel_refl|].
   set (k := Keys.parse_key (e_key e)).
   assert (Keys.ko_key k = e_key e) as Ekk by apply parse_key_key.
-  pose proof (step1_crel w ip e ocl (λ ra w1 w2, match ra with AStuck => (w1, SStuck) | _ => (w2, SOk) end) fl HC Hk3 He) as Hs1.
-  cbn zeta in Hs1.
-  match goal with |- crel _ _ (match ?r with _ => _ end).1 => set (s1 := r) in * end.
-  destruct Hs1 as [Hs1 Hoff]; [intros [] ? ?; auto|].
+  match goal with |- crel _ _ (match ?r with _ => _ end).1 => set (s1 := r) end.
+  assert (crel (e_key e) w s1.1 ∧ (s1.2 = SOk → key_off (e_key e) s1.1)) as [Hs1 Hoff].
+  { subst s1. cbv zeta. fold (assigned_of w (e_key e)).
+    set (assigned := assigned_of w (e_key e)).
+    destruct (w_provider w && match assigned with [] => false | _ => true end)%bool eqn:Ep.
+    2:{ split; [apply crel_refl|]. intros _. by apply key_off_start. }
+    set (n := List.length assigned). set (oun := take n ocl).
+    match goal with |- context [if negb ?c then _ else _] => destruct c eqn:Ev end; cbn [negb]; [|split; [apply crel_refl|done]].
+    apply andb_true_iff in Ev as [Hnd Hall]. apply bool_decide_eq_true in Hnd.
+    assert (∀ x, x ∈ oun → ∃ ex, i_alloc (w_ipam w) !! x = Some ex ∧ e_key ex = e_key e ∧ In (x, ex) assigned) as Hsub.
+    { intros x Hx. rewrite forallb_forall in Hall. apply elem_of_list_In in Hx. specialize (Hall x Hx).
+      apply existsb_exists in Hall as ([y ey] & Hin & Hy). cbn [fst] in Hy. apply N.eqb_eq in Hy as ->.
+      exists ey. pose proof Hin as Hin'. apply in_assigned_of in Hin' as (? & ? & _). done. }
+    destruct (unassign_loop w oun 0 fl) as [w1 r1] eqn:El.
+    apply (unassign_loop_crel (e_key e)) in El as (Hc & Ei & Hok).
+    2:{ intros x Hx. destruct (Hsub x Hx) as (ex & ? & ? & _). by exists ex. }
+    destruct r1.
+    - match goal with |- context [if negb ?c then _ else _] => destruct c eqn:Efull end; cbn [negb]; [|split; [apply crel_refl|done]].
+      apply bool_decide_eq_true in Efull.
+      destruct (Hok eq_refl) as [Hoffun _].
+      assert (key_off (e_key e) w1) as Hoff1.
+      { intros y ey Hey Hky. rewrite Ei in Hey.
+        destruct (Keys.is_empty (e_node ey)) eqn:Eny.
+        - apply is_empty_true in Eny.
+          assert (w_cloud w !! y = None) as Hcy by (by eapply nodeless_off).
+          destruct Hc as (_ & _ & C & _). destruct (C y) as [Ec|[Hnone _]]; [by rewrite Ec|done].
+        - apply Hoffun. apply (nodup_subset_length_eq oun (map fst assigned)); [done| |by rewrite map_length|].
+          + intros x Hx. destruct (Hsub x Hx) as (ex & _ & _ & Hin). apply elem_of_list_In, in_map_iff. by exists (x, ex).
+          + apply elem_of_list_In, in_map_iff. exists (y, ey). split; [done|]. apply in_assigned_of.
+            apply is_empty_false' in Eny. done. }
+      match goal with |- context [reserve_ip (w_ipam w1) _ _ _ ?ocl0 None] => set (ocl1 := ocl0) end.
+      set (r := reserve_ip (w_ipam w1) (e_key e) (e_key e) free_entry_attr ocl1 None).
+      assert (crel (e_key e) w1 (set_ipam w1 r.1)) as Hw2.
+      { apply crel_set_ipam; [done|]. intros y.
+        destruct (reserve_ip_node (w_ipam w1) (e_key e) (e_key e) ocl1 None y) as [E|(e0 & e' & He0 & Hk & He' & Hn)]; [by left|].
+        right. exists e0. split_and!; try done. right. by exists e'. }
+      destruct r.2; cbn [fst snd];
+        (split; [first [done|by eapply crel_trans]|]); intros Hr; first [done|by eapply key_off_crel].
+    - destruct (f_cloud fl); [|split; [apply crel_refl|done]].
+      destruct (_ || _)%bool; cbn [fst snd]; split; try done; apply crel_refl.
+    - split; [done|done]. }
   destruct s1 as [w1 [| |]]; cbn [fst snd] in *; try done.
   eapply crel_trans; [exact Hs1|]. rewrite <- Ekk. apply unbind_any_crel. rewrite Ekk. by apply Hoff.
 Qed.
 
 Lemma cinv_resync w ip o ocl fl :
-  CInv w → k3b_free w ip →
+  CInv w →
   CInv (pstep w (PResync ip o ocl fl)).1 ∧ freed_unassigned w (pstep w (PResync ip o ocl fl)).1 ∧ w_provider (pstep w (PResync ip o ocl fl)).1 = w_provider w.
 Proof.
-  intros HC Hk3. pose proof (ci_winv w HC) as HW. pose proof (winv_resync w ip o ocl fl HW) as HW'.
+  intros HC. pose proof (ci_winv w HC) as HW. pose proof (winv_resync w ip o ocl fl HW) as HW'.
   assert ((pstep w (PResync ip o ocl fl)).1 = (resync_section w ip o ocl fl).1) as Efst.
   { cbn [pstep]. by destruct (resync_section w ip o ocl fl) as [w' [| |]]. }
   rewrite Efst in *.
@@ -447,33 +463,58 @@ Proof.
   rewrite andb_false_r. unfold release. rewrite Hn. cbn [fst]. apply set_ipam_self.
 Qed.
 
+(** the (repaired) API release touches the one IP only: UnAssignIP(ip), node and uid of [ip] cleared, [ip] released *)
 Lemma api_release_section_crel w k ip ocl fl e :
-  CInv w → k3b_free w ip → i_alloc (w_ipam w) !! ip = Some e →
+  CInv w → i_alloc (w_ipam w) !! ip = Some e →
   crel (e_key e) w (api_release_section w k ip ocl fl).1.
 Proof.
-  intros HC Hk3 He. unfold api_release_section, by_ip. rewrite He.
+  intros HC He. unfold api_release_section, by_ip. rewrite He.
   destruct (str_eqb_spec (e_key e) (Keys.ko_key k)) as [Ek|Ek]; cbn [negb].
   2:{ destruct (Keys.is_empty _); apply crel_refl. }
   destruct (pod_running _ _ _ _); [apply crel_refl|].
-  pose proof (step1_crel w ip e ocl (λ ra w1 w2, match ra with AStuck => (w1, SStuck) | AOk => (w2, SOk) | _ => (w2, SErr) end) fl HC Hk3 He) as Hs1.
-  cbn zeta in Hs1.
-  match goal with |- crel _ _ (match ?r with _ => _ end).1 => set (s1 := r) in * end.
-  destruct Hs1 as [Hs1 Hoff]; [intros [] ? ?; auto|].
+  match goal with |- crel _ _ (match ?r with _ => _ end).1 => set (s1 := r) end.
+  (* after the first part the IP is Off, still keyed [e_key e] if it is there at all *)
+  assert (crel (e_key e) w s1.1 ∧
+          (s1.2 = SOk → w_cloud s1.1 !! ip = None ∧ ∀ y, y ≠ ip → i_alloc (w_ipam s1.1) !! y = i_alloc (w_ipam w) !! y)) as [Hs1 Hoff].
+  { subst s1.
+    destruct (w_provider w && negb (Keys.is_empty (e_node e)))%bool eqn:Ep.
+    2:{ split; [apply crel_refl|]. intros _. cbn [fst]. split; [|done].
+        destruct (w_cloud w !! ip) as [n|] eqn:Ec; [|done]. exfalso.
+        apply andb_false_iff in Ep as [Hp|Hp].
+        - by rewrite (ci_noprov w HC Hp), lookup_empty in Ec.
+        - destruct (ci_alloc w HC ip n Ec) as (e0 & He0 & Hn & Hne). rewrite He in He0. simplify_eq.
+          apply negb_false_iff, is_empty_true in Hp. done. }
+    destruct (bool_decide _); [split; [apply crel_refl|done]|].
+    set (w1 := cloud_unassign w ip (e_node e)).
+    assert (crel (e_key e) w w1) as Hw1 by (by eapply crel_unassign).
+    assert (w_cloud w1 !! ip = None) as Hoff1 by (cbn [w1 cloud_unassign w_cloud]; apply lookup_delete).
+    match goal with |- context [update_attr (w_ipam w1) _ ip ?a0 ?f0] => set (a1 := a0); set (f1 := f0) end.
+    destruct (update_attr (w_ipam w1) (e_key e) ip a1 f1) as [s' ra] eqn:Eu. cbn [fst snd].
+    apply update_attr_spec in Eu as [(-> & e0 & He0 & Hk0 & Ha & _)|[Hne ->]].
+    2:{ destruct ra; try done; split; done. }
+    cbn [fst snd]. split.
+    - eapply crel_trans; [exact Hw1|]. split_and!; try done; cbn [set_ipam w_cloud w_ipam].
+      + intros y. by left.
+      + intros y. rewrite Ha. destruct (decide (y = ip)) as [->|Hne]; [|left; by apply lookup_insert_ne].
+        right. split; [done|]. exists e0. split_and!; try done. right. eexists. split; [apply lookup_insert|done].
+    - intros _. split; [done|]. intros y Hne. cbn [set_ipam w_ipam]. rewrite Ha. by apply lookup_insert_ne. }
   destruct s1 as [w1 [| |]]; cbn [fst snd] in *; try done.
-  eapply crel_trans; [exact Hs1|]. apply crel_set_ipam; [by apply Hoff|].
-  intros y. rewrite <- Ek.
-  destruct (release (w_ipam w1) (e_key e) ip (bool_decide (f_store fl = Some 0%nat))) as [s' ra] eqn:Er. cbn [fst].
-  destruct (release_spec _ _ _ _ _ _ Er) as [(_ & e0 & He0 & Hk0 & Ha & _)|[_ ->]]; [|by left].
-  rewrite Ha. destruct (decide (y = ip)) as [->|Hne].
-  - right. exists e0. split_and!; try done. left. apply lookup_delete.
-  - left. by apply lookup_delete_ne.
+  destruct (Hoff eq_refl) as [Hoffip Hoth].
+  eapply crel_trans; [exact Hs1|].
+  destruct (release (w_ipam w1) (Keys.ko_key k) ip (bool_decide (f_store fl = Some 0%nat))) as [s' ra] eqn:Er. cbn [fst].
+  destruct (release_spec _ _ _ _ _ _ Er) as [(_ & e0 & He0 & Hk0 & Ha & _)|[_ ->]].
+  2:{ rewrite set_ipam_self. apply crel_refl. }
+  split_and!; try done; cbn [set_ipam w_cloud w_ipam].
+  - intros y. by left.
+  - intros y. rewrite Ha. destruct (decide (y = ip)) as [->|Hne]; [|left; by apply lookup_delete_ne].
+    right. split; [done|]. exists e0. split_and!; [done|congruence|]. left. apply lookup_delete.
 Qed.
 
 Lemma cinv_api_release w k ip ocl fl :
-  CInv w → k = Keys.parse_key (Keys.ko_key k) → k3b_free w ip →
+  CInv w → k = Keys.parse_key (Keys.ko_key k) →
   CInv (pstep w (PApiRelease k ip ocl fl)).1 ∧ freed_unassigned w (pstep w (PApiRelease k ip ocl fl)).1 ∧ w_provider (pstep w (PApiRelease k ip ocl fl)).1 = w_provider w.
 Proof.
-  intros HC Hk Hk3. pose proof (ci_winv w HC) as HW. pose proof (winv_api_release w k ip ocl fl HW Hk) as HW'.
+  intros HC Hk. pose proof (ci_winv w HC) as HW. pose proof (winv_api_release w k ip ocl fl HW Hk) as HW'.
   assert ((pstep w (PApiRelease k ip ocl fl)).1 = (api_release_section w k ip ocl fl).1) as Efst.
   { cbn [pstep]. by destruct (api_release_section w k ip ocl fl) as [w' [| |]]. }
   rewrite Efst in *.
@@ -1044,8 +1085,33 @@ Definition h_k3 : list pop := [
         {| f_store := None; f_update := None; f_cloud := None; f_bind := 1 |};
   PBind (L "ns1") (L "web-0") (L "uA") (L "node2") (c10_orc (Some c10_ip2) None []) no_faults ].
 
-(** K3b: a pod with two requested range lists holds two IPs; it is deleted; the resync item of one of them
-    unassigns that one only and releases both *)
+(** K3b (repaired): a pod with two requested range lists holds two IPs On node1; it is deleted.  [h_k3b] ends in
+    that world; the resync item of one of the IPs, as the code was BEFORE the repair ([resync_section_old], a copy of
+    the model's former [resync_section]), unassigns that one only and releases both; the repaired item unassigns both *)
+Definition resync_section_old (w : world) (ip : N) (o : oracle) (oclear : list N) (fl : faults) : world * sres :=
+  match i_alloc (w_ipam w) !! ip with
+  | None => (w, SOk)
+  | Some e =>
+      let k := Keys.parse_key (e_key e) in
+      if resync_skip e k then (w, SOk) else
+      if pod_running w (Keys.ko_ns k) (Keys.ko_pod k) (e_uid e) then (w, SOk) else
+      let step1 : world * sres :=
+        if w_provider w && negb (Keys.is_empty (e_node e)) then
+          if bool_decide (f_cloud fl = Some 0%nat) then (w, SErr)
+          else
+            let w1 := cloud_unassign w ip (e_node e) in
+            let r := reserve_ip (w_ipam w1) (e_key e) (e_key e) free_entry_attr oclear None in
+            match snd r with AStuck => (w1, SStuck) | _ => (set_ipam w1 (fst r), SOk) end
+        else (w, SOk) in
+      match step1 with
+      | (w1, SOk) =>
+          let r := if ko_is_dp k then unbind_dp w1 k (e_policy e) o fl else unbind_nondp w1 k (e_policy e) o fl in
+          (fst r, match snd r with SStuck => SStuck | _ => SOk end)
+      | (w1, SErr) => (w1, SOk)
+      | r' => r'
+      end
+  end.
+
 Definition h_k3b : list pop := [
   PIpam (OConfigure c10_conf false []);
   PEnv (EStsSet (L "ns1", L "web") (Some 1));
@@ -1054,8 +1120,35 @@ Definition h_k3b : list pop := [
   PFilter c10_web0 [L "node1"; L "node2"] (c10_orc None None []) no_faults;
   PBind (L "ns1") (L "web-0") (L "uA") (L "node1") (c10_orc None None []) no_faults;
   PEnv (EPodDelete c10_web0);
+  PEnv (EInformer c10_web0) ].
+Definition k3b_orc : oracle := c10_orc None None [c10_ip2; c10_ip3].
+
+(** the second way the old code lost an assignment (found while proving the repair): the item's own IP has NO node
+    stored while another IP of the key is On a node.  web-0 (policy: keep while the app exists) is bound with two IPs,
+    deleted, its IPs reserved; the next incarnation's Bind fails cleanly at the second AssignIP: ip2 is On node1 with the
+    node stored, ip3 has no node; the pod and the statefulset are deleted; the resync item of ip3 calls no provider
+    and releases both IPs.  The repaired item unassigns ip2 first. *)
+Definition c10_pod1 (u : string) : pod :=
+  {| pd_ns := L "ns1"; pd_name := L "web-0"; pd_uid := L u; pd_kind := KSts; pd_app := L "web"; pd_pool := [];
+     pd_policy := 1; pd_ranges := [[(c10_ip2, c10_ip2)]; [(c10_ip3, c10_ip3)]]; pd_phase := 0; pd_node := []; pd_ips := [] |}.
+Definition h_k3b_nodeless : list pop := [
+  PIpam (OConfigure c10_conf false []);
+  PEnv (EStsSet (L "ns1", L "web") (Some 1));
+  PEnv (EPodPut (c10_pod1 "uA"));
   PEnv (EInformer c10_web0);
-  PResync c10_ip2 (c10_orc None None [c10_ip2; c10_ip3]) [c10_ip2; c10_ip3] no_faults ].
+  PFilter c10_web0 [L "node1"; L "node2"] (c10_orc None None []) no_faults;
+  PBind (L "ns1") (L "web-0") (L "uA") (L "node1") (c10_orc None None []) no_faults;
+  PEnv (EPodDelete c10_web0);
+  PEnv (EInformer c10_web0);
+  PEvent 0 k3b_orc [c10_ip2; c10_ip3] no_faults;
+  PEnv (EPodPut (c10_pod1 "uB"));
+  PEnv (EInformer c10_web0);
+  PFilter c10_web0 [L "node1"; L "node2"] (c10_orc None None []) no_faults;
+  PBind (L "ns1") (L "web-0") (L "uB") (L "node1") (c10_orc None None [])
+        {| f_store := None; f_update := None; f_cloud := Some 1%nat; f_bind := 0 |};
+  PEnv (EPodDelete c10_web0);
+  PEnv (EInformer c10_web0);
+  PEnv (EStsSet (L "ns1", L "web") None) ].
 
 (** a history of the theorems' domain with a live bound pod *)
 Definition h_c10_ok : list pop := [
@@ -1080,12 +1173,68 @@ Proof.
   unfold h_k3. cbn [wf_hist wf_op wf_env]. split_and!; c10_wf_side.
 Qed.
 
-Lemma h_k3b_refutes : wf_hist (world0 true c10_nodes) h_k3b ∧ ¬ cloud_alloc (prun (world0 true c10_nodes) h_k3b).
+Lemma c10_pod1_wf u : u ≠ ""%string → wf_pod (c10_pod1 u).
 Proof.
-  split.
+  intros Hu. constructor; cbn [c10_pod1 pd_ns pd_name pd_uid pd_kind pd_app pd_pool]; try (apply small_name_ok'; reflexivity); try discriminate.
+  - by destruct u.
+  - apply contains_char_false. reflexivity.
+Qed.
+
+(** before the repair the item of ip2 left ip3 On node1 although ip3 was released; the repaired item (valid oracle: the
+    unassign order, then the clearing order) is not stuck and leaves the provider with nothing On *)
+Local Notation w_k3b := (prun (world0 true c10_nodes) h_k3b).
+Definition ocl_k3b : list N := [c10_ip2; c10_ip3; c10_ip2; c10_ip3].
+Lemma w_k3b_old_on : w_cloud (resync_section_old w_k3b c10_ip2 k3b_orc [c10_ip2; c10_ip3] no_faults).1 !! c10_ip3 = Some (L "node1").
+Proof. vm_compute; reflexivity. Qed.
+Lemma w_k3b_old_free : i_alloc (w_ipam (resync_section_old w_k3b c10_ip2 k3b_orc [c10_ip2; c10_ip3] no_faults).1) !! c10_ip3 = None.
+Proof. vm_compute; reflexivity. Qed.
+Lemma w_k3b_new_ok : (resync_section w_k3b c10_ip2 k3b_orc ocl_k3b no_faults).2 = SOk.
+Proof. vm_compute; reflexivity. Qed.
+Lemma w_k3b_new_off_l : map_to_list (w_cloud (resync_section w_k3b c10_ip2 k3b_orc ocl_k3b no_faults).1) = [].
+Proof. vm_compute; reflexivity. Qed.
+Lemma w_k3b_new_off : w_cloud (resync_section w_k3b c10_ip2 k3b_orc ocl_k3b no_faults).1 = ∅.
+Proof. apply map_to_list_empty_iff. exact w_k3b_new_off_l. Qed.
+
+Lemma h_k3b_old_refutes : wf_hist (world0 true c10_nodes) h_k3b ∧
+  ¬ cloud_alloc (resync_section_old w_k3b c10_ip2 k3b_orc [c10_ip2; c10_ip3] no_faults).1 ∧
+  (resync_section w_k3b c10_ip2 k3b_orc ocl_k3b no_faults).2 = SOk ∧
+  cloud_alloc (resync_section w_k3b c10_ip2 k3b_orc ocl_k3b no_faults).1.
+Proof.
+  split; [|split; [|split]].
   - unfold h_k3b. cbn [wf_hist wf_op wf_env]. split_and!; c10_wf_side.
-  - intros H. destruct (H c10_ip3 (L "node1")) as (e & He & _); [vm_compute; reflexivity|].
-    vm_compute in He. discriminate He.
+  - intros H. destruct (H c10_ip3 (L "node1") w_k3b_old_on) as (e & He & _).
+    rewrite w_k3b_old_free in He. discriminate He.
+  - exact w_k3b_new_ok.
+  - intros x n Hx. exfalso. rewrite w_k3b_new_off, lookup_empty in Hx. done.
+Qed.
+
+Local Notation w_k3bn := (prun (world0 true c10_nodes) h_k3b_nodeless).
+Definition ocl_k3bn : list N := [c10_ip2; c10_ip2].
+Lemma w_k3bn_old_on : w_cloud (resync_section_old w_k3bn c10_ip3 k3b_orc [] no_faults).1 !! c10_ip2 = Some (L "node1").
+Proof. vm_compute; reflexivity. Qed.
+Lemma w_k3bn_old_free : i_alloc (w_ipam (resync_section_old w_k3bn c10_ip3 k3b_orc [] no_faults).1) !! c10_ip2 = None.
+Proof. vm_compute; reflexivity. Qed.
+Lemma w_k3bn_new_ok : (resync_section w_k3bn c10_ip3 k3b_orc ocl_k3bn no_faults).2 = SOk.
+Proof. vm_compute; reflexivity. Qed.
+Lemma w_k3bn_new_off_l : map_to_list (w_cloud (resync_section w_k3bn c10_ip3 k3b_orc ocl_k3bn no_faults).1) = [].
+Proof. vm_compute; reflexivity. Qed.
+Lemma w_k3bn_new_off : w_cloud (resync_section w_k3bn c10_ip3 k3b_orc ocl_k3bn no_faults).1 = ∅.
+Proof. apply map_to_list_empty_iff. exact w_k3bn_new_off_l. Qed.
+
+Lemma uid_fresh_empty_l w u : map_to_list (w_pods w) = [] → map_to_list (w_lister w) = [] → w_queue w = [] → uid_fresh w u.
+Proof. intros E1 E2 E3. apply uid_fresh_empty; [by apply map_to_list_empty_iff|by apply map_to_list_empty_iff|done]. Qed.
+
+Lemma h_k3b_nodeless_old_refutes : wf_hist (world0 true c10_nodes) h_k3b_nodeless ∧
+  ¬ cloud_alloc (resync_section_old w_k3bn c10_ip3 k3b_orc [] no_faults).1 ∧
+  (resync_section w_k3bn c10_ip3 k3b_orc ocl_k3bn no_faults).2 = SOk ∧
+  cloud_alloc (resync_section w_k3bn c10_ip3 k3b_orc ocl_k3bn no_faults).1.
+Proof.
+  split; [|split; [|split]].
+  - unfold h_k3b_nodeless. cbn [wf_hist wf_op wf_env]. split_and!; first [c10_wf_side | by apply c10_pod1_wf | apply uid_fresh_empty_l; vm_compute; reflexivity].
+  - intros H. destruct (H c10_ip2 (L "node1") w_k3bn_old_on) as (e & He & _).
+    rewrite w_k3bn_old_free in He. discriminate He.
+  - exact w_k3bn_new_ok.
+  - intros x n Hx. exfalso. rewrite w_k3bn_new_off, lookup_empty in Hx. done.
 Qed.
 
 Lemma h_c10_ok_live : wf_c10_hist (world0 true c10_nodes) h_c10_ok ∧
@@ -1099,5 +1248,6 @@ Qed.
 Print Assumptions cloud_wellformed_l.
 Print Assumptions freed_before_reuse_l.
 Print Assumptions h_k3_refutes.
-Print Assumptions h_k3b_refutes.
+Print Assumptions h_k3b_old_refutes.
+Print Assumptions h_k3b_nodeless_old_refutes.
 Print Assumptions h_c10_ok_live.
